@@ -30,6 +30,7 @@ def run(ctx):
     ctx.each(r13e, ctx, repo, T)
     ctx.each(c11.r11e, ctx, repo, "R13f")
     ctx.each(c16.r16a, ctx, repo, T)
+    ctx.each(r13h, ctx, repo)
     ctx.each(flowalg.accumulator_rule, ctx, repo, "R13g", [("model", "Model.update_pars"), ("model", "Parameter.source_popsize"), ("results", "Result.get_coverage")], 6, "the eligible-people counts")  # the outcome a program set implies is computed from a cache: it must follow every edit of the visible outcomes
 
 
@@ -210,3 +211,47 @@ def r13e(ctx, repo, T):
     n = c09.program_interpolations(ctx, repo, T, ["results"], "R13e", fail=True)
     c09.program_interpolations(ctx, repo, T, ["reconciliation", "optimization", "scenarios", "project", "calibration", "cascade"], "R13e", fail=False)
     ctx.require(n >= 1, "R13e: no program-series interpolation found in results.py (expected get_equivalent_alloc)")
+
+
+def r13h(ctx, repo):
+    from ..core import boolx as B
+    from ..core import algebra as A
+
+    ctx.rule("R13h", "Result.get_coverage reports what was asked for: 'capacity' -> the capacities the run used, 'fraction' / 'annual_fraction' -> the proportion covered, 'eligible' -> the eligible count, 'number' -> eligible x proportion per program; per-year quantities (capacity, number, annual_fraction) are divided by dt for one-off programs only; requested years are read by interpolation of the same arrays")
+    fi = repo.func("results", "Result.get_coverage")
+    me = K.self_name(fi)
+    q = fi.params[1]
+    outs = [s for s in own_nodes(fi.node) if isinstance(s, ast.Assign) and astq.is_name(s.targets[0], "output")]
+    got = {}
+    for s in outs:
+        g = B.cond(guards_of(s))
+        v = ast.unparse(s.value)
+        for kind, want, val_ok in (
+            ("capacity", "%s == 'capacity'" % q, v == "capacities"),
+            ("fraction", "not (%s == 'capacity') and %s in {'fraction', 'annual_fraction'}" % (q, q), v == "prop_coverage"),
+            ("eligible", "not (%s == 'capacity') and not (%s in {'fraction', 'annual_fraction'}) and %s == 'eligible'" % (q, q, q), v == "num_eligible"),
+            ("number", "not (%s == 'capacity') and not (%s in {'fraction', 'annual_fraction'}) and not (%s == 'eligible') and %s == 'number'" % (q, q, q, q), isinstance(s.value, ast.DictComp) and A.same(s.value.value, A.parse("num_eligible[x] * prop_coverage[x]".replace("x", ast.unparse(s.value.key))))),
+        ):
+            if val_ok:
+                # the progset-is-None early return precedes everything; compare under that assumption
+                assume = B.parse_cond("not (%s.model.progset is None)" % me)
+                got[kind] = B.equivalent(g, B.parse_cond("not (%s.model.progset is None) and (%s)" % (me, want)), assume=assume)
+    ctx.check(got == {"capacity": True, "fraction": True, "eligible": True, "number": True}, "R13h", fi, outs[0] if outs else fi.node, "each quantity name selects its own table", "Result.get_coverage does not return capacities / prop_coverage / num_eligible / eligible x proportion under exactly the quantity names 'capacity' / 'fraction' or 'annual_fraction' / 'eligible' / 'number' (%s): the reported coverage is not the one that produced the run's parameter values" % got, stmt_text="dispatch")
+    div = [s for s in own_nodes(fi.node) if isinstance(s, ast.AugAssign) and isinstance(s.op, ast.Div) and ast.unparse(astq.strip_subs(s.target)) == "output"]
+    ok = len(div) == 1 and ast.unparse(div[0].value) == "%s.dt" % me
+    if ok:
+        lp = K.enclosing_loops(div[0])
+        ok = bool(lp) and B.equivalent(B.cond(guards_of(div[0], stop=lp[0])), B.parse_cond("%s.model.progset.programs[%s].is_one_off" % (me, ast.unparse(lp[0].target)))) and B.equivalent(B.cond([g_ for g_ in guards_of(lp[0]) if "progset is None" not in ast.unparse(g_[0])]), B.parse_cond("%s in {'capacity', 'number', 'annual_fraction'}" % q))
+    ctx.check(ok, "R13h", fi, div[0] if div else fi.node, "per-year quantities of one-off programs are divided by dt", "the division by dt is not applied exactly to one-off programs for the quantities capacity / number / annual_fraction", stmt_text="annualise")
+    args = {"get_capacities": None, "get_prop_coverage": None}
+    for c in own_nodes(fi.node):
+        if isinstance(c, ast.Call) and isinstance(c.func, ast.Attribute) and c.func.attr in args and ast.unparse(c.func.value) == "%s.model.progset" % me:
+            callee = repo.func("programs", "ProgramSet.%s" % c.func.attr)
+            got_args = {}
+            for pos, pname in enumerate(callee.params[1:]):
+                v = astq.kwarg(c, pname, pos=pos)
+                if v is not None:
+                    got_args[pname] = ast.unparse(v)
+            args[c.func.attr] = got_args
+    ok = args["get_capacities"] == {"tvec": "%s.t" % me, "dt": "%s.dt" % me, "instructions": "%s.model.program_instructions" % me} and args["get_prop_coverage"] == {"tvec": "%s.t" % me, "dt": "%s.dt" % me, "capacities": "capacities", "num_eligible": "num_eligible", "instructions": "%s.model.program_instructions" % me}
+    ctx.check(ok, "R13h", fi, fi.node, "reported from the run's own time vector, step, instructions, capacities and eligible counts", "Result.get_coverage does not call get_capacities / get_prop_coverage with the result's t, dt, the model's instructions and the capacities / eligible counts computed here: %s" % args, stmt_text="arguments")
